@@ -48,6 +48,10 @@ def table(I):
 
     # ---- type predicates -------------------------------------------------
     def m_isinstance(x, t):
+        if hasattr(t, '__sym_instancecheck__'):
+            return t.__sym_instancecheck__(x)
+        if isinstance(t, tuple) and any(hasattr(k, '__sym_instancecheck__') for k in t):
+            return Or(*[m_isinstance(x, k) for k in t])
         if is_symbolic(x):
             pt = pytype(x)
             ts = t if isinstance(t, tuple) else (t,)
